@@ -17,7 +17,7 @@ patch, props = os.path.abspath(args[0]), args[1:]
 tmp = tempfile.mkdtemp(prefix="mut_")
 try:
     dst = os.path.join(tmp, "repo")
-    shutil.copytree("/repo", dst, ignore=shutil.ignore_patterns(".git", "__pycache__", "docs"), symlinks=True)
+    _copytree("/repo", dst, ignore=shutil.ignore_patterns(".git", "__pycache__", "docs"), symlinks=True)
     r = subprocess.run(["patch", "-p1", "-s", "-i", patch], cwd=dst, capture_output=True, text=True)
     if r.returncode != 0:
         print("PATCH FAILED", r.stdout, r.stderr); sys.exit(3)
@@ -44,3 +44,15 @@ try:
     print("RESULT", " ".join("%s=%s" % (k, "CAUGHT" if v == 1 else ("INCONCLUSIVE" if v == 2 else "MISSED")) for k, v in rc_all.items()))
 finally:
     shutil.rmtree(tmp, ignore_errors=True)
+
+def _copytree(src, dst, **kw):
+    """shutil.copytree that tolerates files which vanish while it runs (the repository's own tests, when they run at the same
+    time, create and delete scratch files in the repository's directory)."""
+    try:
+        shutil.copytree(src, dst, **kw)
+    except shutil.Error as ex:
+        real = [e for e in ex.args[0] if "No such file or directory" not in str(e[2])]
+        if real:
+            raise
+
+
